@@ -465,27 +465,30 @@ def newSession (s : Sess) : Bool := (s.copy.isEmpty && !s.data.isEmpty) || s.res
 def cookieAgeOf (ctx : Ctx) (s : Sess) : Int := Gen.cookieAge s.how s.timeoutVal s.timeoutIn ctx.now (newSession s)
 def sessionAgeOf (ctx : Ctx) (s : Sess) : Int := Gen.sessionAge s.how s.timeoutVal s.timeoutIn ctx.now (newSession s)
 
-/-- first loop of `update_exposed`: cookies (re)set, and keys to remove, in map order -/
+/-- first loop of `update_exposed`: cookies (re)set, and keys to remove, in map order.  The two conditions are
+regenerated from the source (`Gen.exposedSetCond`, `Gen.exposedRmCond`). -/
 def exposedPass1 (age : Int) (force : Bool) (copy : Data) : Data → List SetCookie × List Key
   | [] => ([], [])
   | (k, e) :: rest =>
     let (cs, rm) := exposedPass1 age force copy rest
     let p2 := dfind k copy
-    if e.exposed && (force || p2.isNone || !(p2.map (·.exposed)).getD false || (p2.map (·.value)) != some e.value) then
+    if Gen.exposedSetCond e.exposed force p2.isNone ((p2.map (·.exposed)).getD false) ((p2.map (·.value)) != some e.value) then
       (mkCookie age e.value k :: cs, rm)
-    else if !e.exposed && ((p2.map (·.exposed)).getD false || force) then (cs, k :: rm)
+    else if Gen.exposedRmCond e.exposed force p2.isNone ((p2.map (·.exposed)).getD false) then (cs, k :: rm)
     else (cs, rm)
 
-/-- second loop: exposed in the loaded copy, gone from the data -/
+/-- second loop: exposed in the loaded copy, gone from the data (`Gen.exposedGoneCond`) -/
 def exposedPass2 (data : Data) : Data → List Key
   | [] => []
-  | (k, e) :: rest => if e.exposed && (dfind k data).isNone then k :: exposedPass2 data rest else exposedPass2 data rest
+  | (k, e) :: rest =>
+    if Gen.exposedGoneCond e.exposed (dfind k data).isNone then k :: exposedPass2 data rest else exposedPass2 data rest
 
-/-- `remove_unknown_cookies`: request cookies `<prefix>_<key>` whose key is not an exposed entry -/
+/-- `remove_unknown_cookies`: request cookies `<prefix>_<key>` whose key is not an exposed entry (`Gen.exposedUnknownCond`) -/
 def exposedPass3 (data : Data) : List Key → List Key
   | [] => []
   | k :: rest =>
-    if !((dfind k data).map (·.exposed)).getD false then k :: exposedPass3 data rest else exposedPass3 data rest
+    if Gen.exposedUnknownCond (((dfind k data).map (·.exposed)).getD false) (dfind k data).isNone then k :: exposedPass3 data rest
+    else exposedPass3 data rest
 
 /-- `session_interface::update_exposed(force)` -/
 def updateExposed (ctx : Ctx) (s : Sess) (force : Bool) : List SetCookie :=
